@@ -39,7 +39,7 @@ def _m(world, level, runs, budget, rule, simtime_unit, distinct, real, stub, ass
 
 META = {
     "C07": _m(
-        "E", "exploration", (64, 3000), (420, 3000),
+        "E", "exploration", (64, 1500), (420, 5400),
         "Each run = one plan drawn from plan_rng(property, VERIF_SEED, run_index): chains 1-4, 1-4 probe kernels "
         "(plain / mixin, history-needing or not), a valid epoch schedule of 1-6 epochs, a JIT chunk size dividing all "
         "durations, and an API script interleaving append_epoch / sample_next_epoch / sample_all_epochs / get_results. "
@@ -55,7 +55,7 @@ META = {
         ],
     ),
     "C08": _m(
-        "E", "exploration", (64, 3000), (420, 3000),
+        "E", "exploration", (64, 1500), (420, 5400),
         "Each run = one plan: chains 1-4, 1-3 probe kernels writing unique attributable values f(chain, global time, kernel, "
         "element) into scalar/vector/matrix keys of int32/float32 dtype, a valid schedule with thinning on warm-up and posterior "
         "epochs, a chunk size dividing all durations (plus a second chunk size for the chunk-independence twin), tracked-key "
@@ -71,7 +71,7 @@ META = {
         ],
     ),
     "C10": _m(
-        "E", "exploration", (48, 3000), (480, 3000),
+        "E", "exploration", (48, 1500), (480, 5400),
         "Each run = one plan of two kinds. probe: world-E plan (1-6 chains, 1-4 key-recording probe kernels, schedule, chunk, "
         "API script, 0-2 quantity generators, engine / EngineBuilder / EngineBuilder with per-chain states) executed twice with "
         "fresh objects. rw: real RWKernel(s) on a Gaussian dict model through EngineBuilder with replicated or per-chain initial "
@@ -87,7 +87,7 @@ META = {
         ],
     ),
     "C19": _m(
-        "E", "fault_enumeration", (48, 3000), (480, 3000),
+        "E", "fault_enumeration", (48, 1400), (480, 5400),
         "Each run = one plan: 1-6 chains, schedule with 0-3 warm-up and 1-2 posterior epochs (thinning on both), chunk, API script, "
         "and a fault schedule. F3 sub-batches enumerate the pattern classes {none, warmup_only, posterior_only, dense, single_chain, "
         "all_chains_one_time, sparse}: a table code[kernel][chain][global time] over the probe kernels' error books is injected "
@@ -106,7 +106,7 @@ META = {
         ],
     ),
     "C16": _m(
-        "E", "exploration", (160, 20000), (300, 3000),
+        "E", "exploration", (160, 4000), (420, 5400),
         "Each run = a bundle: 20 op histories on a real EpochManager (append of valid and invalid configs with types 0-4, "
         "durations -1..30, thinning 0..36, interleaved with has_more()/next(), 0-2 configs handed to the constructor), 60 argument "
         "tuples for stan_epochs (warm-up 1-5000, init/term/base 1-400, posterior 1-3000, thinnings), and every 8th run one "
@@ -124,7 +124,7 @@ META = {
         ],
     ),
     "C01": _m(
-        "M", "exploration", (1200, 300000), (300, 3000),
+        "M", "exploration", (1200, 40000), (420, 5400),
         "Each run = one generated model program (4-22 items: bare Value nodes, strong vars with/without Dist or TransientDist "
         "over 9 families, cached / transient Calc nodes incl. pytree-returning ones, TransientIdentity, InputGroup, weak vars, bare "
         "Dist nodes with manual `at`, seeded nodes; scalars and vectors; per_obs on/off) and an op history of 10-60 ops produced by "
@@ -146,7 +146,7 @@ META = {
         run_cap_s=120, shrink_tests=500, shrink_s=60,
     ),
     "C17": _m(
-        "M", "exploration", (600, 200000), (300, 3000),
+        "M", "exploration", (600, 12000), (420, 5400),
         "Each run = one hierarchical model program (world-M generator with distributions on most vars, plus 1-3 'tight links': "
         "child ~ Normal(g(parent), 1e-3) with g through cached / transient Calc nodes and weak vars, possibly chained), a few "
         "assignments before the call, a skip set naming vars / dist nodes / value proxies, a seed and an auto-update setting. "
@@ -164,7 +164,7 @@ META = {
         run_cap_s=120, shrink_tests=300, shrink_s=60,
     ),
     "C15": _m(
-        "M", "exploration", (500, 200000), (300, 3000),
+        "M", "exploration", (500, 60000), (420, 5400),
         "Each run = one generated model program (world-M generator plus unnamed nodes/vars, groups, seeded nodes, shared inputs), "
         "built with copy on/off, followed by a history of 4-14 ops: assignments, auto-update toggles, updates, set_seed, round trips "
         "(pop + rebuild, copy_nodes_and_vars + rebuild, deepcopy, save/load through BytesIO and through a scratch file), F6 "
@@ -184,7 +184,7 @@ META = {
         run_cap_s=120, shrink_tests=300, shrink_s=60,
     ),
     "C02": _m(
-        "M", "exploration", (800, 200000), (300, 3000),
+        "M", "exploration", (800, 40000), (420, 5400),
         "Each run = one generated model program (world-M generator with distributions on most vars over 9 families, observed / "
         "parameter / unflagged vars, bare Dist nodes, weak intermediates, transformed vars through every entry point, per_obs on/off, "
         "optionally user-supplied log_lik / log_prior / log_prob nodes) and a value history of 4-25 ops (assignments incl. to "
@@ -203,7 +203,7 @@ META = {
         run_cap_s=120, shrink_tests=300, shrink_s=60,
     ),
     "C14": _m(
-        "M", "exploration", (600, 200000), (300, 3000),
+        "M", "exploration", (600, 40000), (420, 5400),
         "Each run = one generated model program with at least one transformed variable: (distribution, bijector) pairs from "
         "{Gamma, Exponential, Beta, LogNormal, HalfNormal, InverseGamma, Normal} x {Exp, Softplus, Sigmoid instances; Scale, "
         "Softplus(hinge_softness), Shift classes with constant or model-dependent arguments; the distribution's default}, applied via "
@@ -223,7 +223,7 @@ META = {
         run_cap_s=120, shrink_tests=300, shrink_s=60,
     ),
     "C03": _m(
-        "I", "exploration", (240, 60000), (420, 3000),
+        "I", "exploration", (240, 10000), (420, 5400),
         "Each run = one generated model program (4-12 items incl. transformed and weak vars, optionally a bare Value node that shares "
         "its name with a variable), ONE shared LieselInterface (10%: the deprecated lsl.GooseModel) and a history of 12-40 calls issued by "
         "logical clients: update_state(pos, state) eagerly / under jit / under vmap (batch 2-3) / jit(vmap), extract_position, log_prob "
@@ -243,7 +243,7 @@ META = {
         run_cap_s=240, shrink_tests=60, shrink_s=90,
     ),
     "C20": _m(
-        "O", "exploration", (96, 20000), (420, 3000),
+        "O", "exploration", (96, 4000), (420, 5400),
         "Each run = 6 Stopper configurations (patience 1-12, max_iter <= 40, atol/rtol from {0, small, large}) x 8 loss histories (small "
         "alphabets, random walks, descents, plateaus) evaluated at every iteration index eagerly / under jit / under vmap; every 4th run "
         "additionally one optim_flat run on the identity-design model (theta without prior, X = I observed, y_i ~ N((X theta)_i, 1), plain "
@@ -263,7 +263,7 @@ META = {
         run_cap_s=300, shrink_tests=40, shrink_s=120,
     ),
     "C05": _m(
-        "E", "fault_enumeration", (64, 20000), (420, 3000),
+        "E", "fault_enumeration", (64, 5000), (420, 5400),
         "Each run = 160 direct calls of liesel.goose.mh.mh_step (jit+vmap, 6 of them also eagerly) on a dict model whose log-density is a "
         "stored field, so current / proposed log-densities and the log-correction are injected exactly from {finite grid, tiny, huge, "
         "+inf, -inf, NaN}, with keys from {random, F4: uniform draw exactly 0.0, draw just below 1}; every second run additionally 5 direct "
@@ -283,7 +283,7 @@ META = {
         run_cap_s=300, shrink_tests=40, shrink_s=120,
     ),
     "C12": _m(
-        "E", "exploration", (24, 4000), (600, 3000),
+        "E", "exploration", (24, 1000), (600, 5400),
         "Each run = one Engine run of an HMCKernel or NUTSKernel (diagonal or dense mass matrix) over 2-3 position keys of different shapes "
         "(scalar, vector, matrix) whose scales differ by 10^2-10^6, listed in a random order (mostly non-alphabetical), optionally next to an "
         "RWKernel on a parameter of yet another scale, with 1-3 slow-adaptation epochs of 40-80 iterations (plus fast / burn-in / posterior "
@@ -300,7 +300,7 @@ META = {
         run_cap_s=600, shrink_tests=12, shrink_s=200,
     ),
     "C11": _m(
-        "E", "exploration", (64, 12000), (600, 3000),
+        "E", "exploration", (64, 4000), (600, 5400),
         "Each run = 12 direct da_init / da_step / da_finalize call histories (acceptance sequences of 3-40 values from uniform / low / "
         "high / constant / extreme families, initial step sizes 1e-3..10, targets, gamma, kappa, t0, 0-2 epoch restarts, eager or jitted, with a "
         "higher-acceptance twin from the same state at every step); every second run additionally one Engine run of RW / MH (tuning on or "
@@ -318,7 +318,7 @@ META = {
         run_cap_s=600, shrink_tests=25, shrink_s=200,
     ),
     "C09": _m(
-        "E", "exploration", (24, 2500), (900, 3000),
+        "E", "exploration", (24, 600), (900, 5400),
         "Each run = one Engine run of a sequence of 2-5 real kernels (NUTS / HMC / IWLS / RW / MH with a user proposal / Gibbs) over the "
         "disjoint blocks {beta}, {log_sigma or the Exp-transformed sigma}, {z} of a regression model with derived quantities (weak vars "
         "mu = X beta and sigma, a cached Calc d = tanh(z) beta_0, the stored log-probability), as a Liesel graph model (2 of 3 runs) or a dict "
@@ -338,7 +338,7 @@ META = {
         run_cap_s=900, shrink_tests=10, shrink_s=300,
     ),
     "C06": _m(
-        "S", "exploration", (28, 2000), (900, 3000),
+        "S", "exploration", (28, 1000), (900, 5400),
         "Each run = one Engine run of 128-1024 chains x 10-50 iterations of one kernel (cycling through RWKernel, IWLSKernel with the "
         "Hessian, IWLSKernel with a user-supplied information matrix, MHKernel with a symmetric / independence / multiplicative proposal and "
         "its declared correction) in a burn-in or posterior epoch (fixed step size 0.2-1.5) on a Gaussian / logistic / Poisson regression "
@@ -358,7 +358,7 @@ META = {
         run_cap_s=900, shrink_tests=10, shrink_s=300,
     ),
     "C04": _m(
-        "S", "exploration", (15, 1200), (1200, 3400),
+        "S", "exploration", (15, 400), (1200, 5400),
         "Each run = one exact-draw invariance experiment: per chain theta_0 ~ prior and y ~ p(y | theta_0) are drawn by the simulator's own "
         "numpy sampler, so (theta_0, y) is an exact joint draw and theta_0 an exact posterior draw given y; (theta_0, y) is put into the "
         "per-chain model state, k in {1, 3, 10, 25} transitions of the kernel (sequence) under test run in burn-in / posterior epochs "
@@ -380,7 +380,7 @@ META = {
         run_cap_s=1200, shrink_tests=4, shrink_s=400,
     ),
     "C13": _m(
-        "S", "exploration", (32, 3000), (900, 3000),
+        "S", "exploration", (32, 400), (900, 5400),
         "Each run = one Gibbs-kernel experiment. Even runs: a DistRegBuilder model (Normal response, loc/scale predictors, one np-smooth with a "
         "penalty from {identity, ridge + differences, first differences (rank d-1), second differences (rank d-2)}, d = 2-6, hyperparameters "
         "a, b, coefficient values and current tau2 from wide ranges, optionally a second np-smooth) and liesel's tau2_gibbs_kernel. Odd runs: a "
